@@ -2,6 +2,7 @@ import PyhmsVerif.Model.Proto
 import PyhmsVerif.Model.Repair
 import PyhmsVerif.Model.Problem
 import PyhmsVerif.Model.Select
+import PyhmsVerif.Model.TreeProto
 /-!
 Line-protocol driver: one operation per input line, one answer per output line.
 `lake env lean --run Driver.lean < ops.txt`
@@ -113,10 +114,64 @@ def stepLine (line : String) : String :=
   | some s => s
   | none => "bad-op"
 
-partial def loop (h : IO.FS.Stream) : IO Unit := do
+/-- tree state carried across lines: configuration, current tree or the first error -/
+structure Session where
+  cfg : Option (Tree.Cfg × List (List Problem.Wrapper)) := none
+  tree : Except String Tree.T := .error "no tree"
+  nev : Nat := 0
+
+def treeLine (s : Session) (toks : List String) : Session × String :=
+  match toks with
+  | "tcfg" :: rest =>
+    match run TreeProto.cfgP rest with
+    | some c => ({ s with cfg := some c, tree := .error "not initialised", nev := 0 }, "ok")
+    | none => (s, "bad-op")
+  | "tinit" :: rest =>
+    match s.cfg, run TreeProto.newEnvP rest with
+    | some (c, st), some e =>
+      let t := Tree.init c st e
+      ({ s with tree := t }, match t with | .ok _ => "ok" | .error m => "error: " ++ m)
+    | _, _ => (s, "bad-op")
+  | "tev" :: rest =>
+    match run TreeProto.evP rest with
+    | none => (s, "bad-op")
+    | some ev =>
+      match s.tree with
+      | .error m => (s, "error: " ++ m)
+      | .ok t =>
+        let t' := Tree.step t ev
+        ({ s with tree := t', nev := s.nev + 1 },
+          match t' with | .ok _ => "ok" | .error m => s!"error: event {s.nev + 1}: " ++ m)
+  | ["tdump"] =>
+    (s, match s.tree with | .ok t => TreeProto.dump t false | .error m => "error: " ++ m)
+  | ["tdumpfull"] =>
+    (s, match s.tree with | .ok t => TreeProto.dump t true | .error m => "error: " ++ m)
+  | "tstages" :: rest =>
+    -- the outputs of every stage of the sprout mechanism on the current state
+    match run TreeProto.sproutEnvP rest, s.tree with
+    | some env, .ok t =>
+      (s, match Sprout.getSeedsTrace (Tree.view t) env t.cfg.mech with
+          | some tr => TreeProto.dumpStages tr
+          | none => "none")
+    | _, .error m => (s, "error: " ++ m)
+    | none, _ => (s, "bad-op")
+  | _ => (s, "bad-op")
+
+partial def loop (h : IO.FS.Stream) (s : Session) : IO Unit := do
   let line ← h.getLine
   if line.isEmpty then return ()
-  IO.println (stepLine line)
-  loop h
+  let toks := (line.trimAscii.toString.splitOn " ").filter (· ≠ "")
+  match toks with
+  | t :: _ =>
+    if t.startsWith "t" && t != "topk" && t != "topkok" then
+      let (s', out) := treeLine s toks
+      IO.println out
+      loop h s'
+    else
+      IO.println (stepLine line)
+      loop h s
+  | [] =>
+    IO.println "bad-op"
+    loop h s
 
-def main : IO Unit := do loop (← IO.getStdin)
+def main : IO Unit := do loop (← IO.getStdin) {}
